@@ -26,7 +26,7 @@ func init() {
 			}
 			return 2
 		},
-		Cases:       func(r *obs.Run) int { return 1 + r.Share(r.Pick(20000, 160000)) },
+		Cases:       func(r *obs.Run) int { return 1 + r.Share(r.Pick(20000, 4000000)) },
 		Case:        c20Case,
 		MinDistinct: func(t string) int { return 3000 },
 		Floors: func(string) map[string]int64 {
